@@ -125,6 +125,27 @@ def slc1(ctx: Ctx) -> None:
         ctx.R.fail("SLC-1", mod, gs[0][0], "trimming must happen iff limit is not None and the list is longer than the limit", construct="limit guard")
     else:
         ctx.R.undecided("SLC-1", f"guard of the limit trimming not understood: `{norm(gexpr)[:80]}`")
+    # no frames leave the function on a path that skips the trimming: every yield other than the error path's `yield outer; raise`
+    # is dominated by the limit block
+    g_ = ctx.cfg(fn)
+    top_if = parent
+    for a_ in mod.ancestors(parent):
+        if a_ is fn:
+            break
+        if isinstance(a_, ast.If):
+            top_if = a_
+    tnode = g_.node_of(top_if)
+    for y in [x for x in walk_scope(fn) if isinstance(x, ast.Expr) and isinstance(x.value, (ast.Yield, ast.YieldFrom))]:
+        blk = [b_ for b_ in ast.walk(fn) for fld in ("body", "orelse", "finalbody") if isinstance(getattr(b_, fld, None), list) and y in getattr(b_, fld)]
+        seq = [getattr(blk[0], fld) for fld in ("body", "orelse", "finalbody") if isinstance(getattr(blk[0], fld, None), list) and y in getattr(blk[0], fld)][0] if blk else []
+        nxt = seq[seq.index(y) + 1] if seq and seq.index(y) + 1 < len(seq) else None
+        if isinstance(nxt, ast.Raise):
+            continue      # the "couldn't find where the above frame is running" path
+        if g_.dominates(tnode, g_.node_of(y)):
+            ctx.R.ok("SLC-1", f"`{norm(y)[:40]}` comes after the limit block on every path")
+        else:
+            ctx.R.fail("SLC-1", mod, y, f"`{norm(y)[:50]}` hands frames to the caller on a path that does not pass the limit trimming: for the slices that take this path a limit is ignored "
+                       "(the whole stack is returned instead of the frames nearest the anchor)", construct="frames yielded before the limit is applied")
     # yield from frames at the end
     last = fn.body[-1]
     if isinstance(last, ast.Expr) and isinstance(last.value, ast.YieldFrom) and norm(last.value.value) == "frames":
